@@ -92,6 +92,8 @@ def rows(p):
         vals = {g: [v * f for v in vs] for g, vs in vals.items()}
     dates = [(START + datetime.timedelta(days=d)).isoformat() for d in range(T)]
     variant = p.get('variant', 'plain')
+    if variant in ('flatlast', 'zerolast'):     # the last geo has NO variation in its response (a flat volume / no response)
+        vals[G - 1] = [25.0 if variant == 'flatlast' else 0.0] * T
     out = []
     for d in range(T):
         for g in range(G):
